@@ -222,7 +222,10 @@ OpenBuckets(s) == IF s.pc \in {"flush", "done"} THEN SubSeq(s.buckets, s.f, Len(
 (*    `expiration` examples after c have been pulled, i.e.                 *)
 (*    (pulls - 1) - c <= expiration.  (The code tests i - c >= expiration  *)
 (*    AFTER example i was placed, so a bucket can still receive the        *)
-(*    example c + expiration; it cannot see example c + expiration + 1.)   *)
+(*    example c + expiration; it cannot see example c + expiration + 1.    *)
+(*    The bound is tight: the strict version is refuted by the doctest of  *)
+(*    DynamicBucketDataset itself, expiration=4 yields [1] at pulls = 5.)  *)
+(*    That the smallest id of a batch is its creation index is InvShape.   *)
 (*    Dropped buckets are unobservable from outside; for them the bound    *)
 (*    is the state invariant InvExpiry of the model.                       *)
 (*  - BufferedBound.  "Withheld" = pulled - yielded - discarded, read at   *)
@@ -240,7 +243,13 @@ OpenBuckets(s) == IF s.pc \in {"flush", "done"} THEN SubSeq(s.buckets, s.f, Len(
 (*    exist is the same setting iterated with drop_incomplete=False: the   *)
 (*    drop run must yield exactly the completed ones of those, at the same *)
 (*    instants, and nothing else.                                          *)
-(*  - PaddingBound with tol = 1 (float rates): slack of 1e-4 relative.     *)
+(*  - TotalSizeBound.  len(batch) * longest <= max_total_size for batches  *)
+(*    of more than one example (a single example longer than the limit     *)
+(*    has to go somewhere; the statement exempts it).                      *)
+(*  - PaddingBound.  shortest >= longest * (1 - rate), exact rationals;    *)
+(*    with tol = 1 (float rates) a relative slack of 1e-4.                 *)
+(*  - Raised.  An exception out of the iteration loses examples; it is     *)
+(*    reported under its own clause name.                                  *)
 
 VOk == <<"ok", "">>
 VTriv(w) == <<"trivial", w>>
